@@ -91,5 +91,49 @@ Emit ==
         /\ Covers(G, {n}) => PrintCase(G, <<n>>)
         /\ \A i \in W : Covers(G, {i, n}) => PrintCase(G, <<i, n>>)
         /\ \A i \in W : \A j \in W :
-             (i < j /\ Covers(G, {i, j, n})) => PrintCase(G, <<i, j, n>>)
+             (i < j /\ Covers(G, {i, j, n})) =>
+               PrintT(<<"CASE", ToJson([g |-> G, roots |-> <<i, j, n>>, v |-> {}])>>)
+
+---------------------------------------------------------------------------
+(* C08: (pattern type T, value v) cases.  T is the last node; the values   *)
+(* are the depth <= 2 members of every well-formed node of the graph plus  *)
+(* a few fixed ones, restricted to values a Quiver expression can denote   *)
+(* with a known static type: ints, bins, refs, tuples of those, and        *)
+(* function literals `#P { e }` whose result type is literal-exact.        *)
+(* Verdicts: must (v definitely inhabits T), may (not refuted), sc (every  *)
+(* value of the STATIC type of the expression - same shape, any int / bin  *)
+(* leaves, the same function signature - definitely inhabits T).           *)
+DV == 2
+
+RECURSIVE LitT(_, _)
+LitT(G, n) ==
+  LET t == G.types[n] IN
+  CASE t.k \in {"int", "bin"} -> TRUE
+    [] t.k = "tup" -> \A c \in Range(Kids(G, n)) : LitT(G, c)
+    [] OTHER -> FALSE
+
+RECURSIVE Renderable(_, _)
+Renderable(G, v) ==
+  CASE v.k \in {"int", "bin", "ref"} -> TRUE
+    [] v.k = "tup" -> \A i \in DOMAIN v.fs : Renderable(G, v.fs[i])
+    [] v.k = "fn"  -> v.ctx = <<>> /\ Closed(G, v.n) /\ LitT(G, G.types[v.n].r)
+    [] OTHER -> FALSE
+
+Basic ==
+  {I0, [k |-> "bin", b |-> <<1>>], [k |-> "ref", i |-> 0],
+   TupVal("", <<>>, <<>>), TupVal("A", <<>>, <<>>), TupVal("A", <<"x">>, <<I0>>),
+   TupVal("", <<"x", "y">>, <<I0, I0>>), TupVal("B", <<"">>, <<I0>>)}
+
+Emit8 ==
+  LET n == Len(ns)
+      G == ToGraph
+      W == {i \in 2..n : WellFormed(G, i)}
+      U == TupleUniverse(G, W)
+      V == {v \in Basic \cup UNION {Vals(G, U, i, <<>>, DV) : i \in W} : Renderable(G, v)}
+  IN  (n >= 2 /\ WellFormed(G, n) /\ Covers(G, {n})) =>
+        \A v \in V :
+          PrintT(<<"VCASE", ToJson([g |-> G, t |-> n, v |-> v,
+                     must |-> Inhabits(G, U, v, n, D),
+                     may  |-> MayInhabit(G, U, v, n, D),
+                     sc   |-> \A w \in ShapeVals(v) : Inhabits(G, U, w, n, D)])>>)
 =============================================================================
